@@ -1598,6 +1598,14 @@ func checkC20(raw json.RawMessage) iso.Result {
 			return nil, err
 		}
 		f := terraform.NewTerraformFetcher(svcs)
+		if c.Layout.Decoy && c.Layout.SetName {
+			// cmd/falco walks the services of a plan with ONE fetcher and calls SetName for each in turn:
+			// the other service is selected and read first
+			f.SetName("zz-decoy")
+			f.Backends()     // nolint:errcheck
+			f.Dictionaries() // nolint:errcheck
+			f.Acls()         // nolint:errcheck
+		}
 		if c.Layout.SetName {
 			f.SetName(c.Service)
 		} else if len(svcs) != 1 {
